@@ -404,6 +404,12 @@ pub fn current_task() -> usize
     crate::sched::current_task_id().unwrap_or(NO_TASK)
 }
 
+/// One clock tick is 0.4 s of file-system time: consecutive ticks cross second boundaries and the
+/// sub-second part repeats every five ticks, so both halves of ruler's conversion of a `SystemTime`
+/// (whole seconds, sub-second microseconds) matter for telling modification times apart.
+pub const TICK_MICROS: u64 = 400_000;
+pub fn stamp_micros(tick: u64) -> u64 { tick * TICK_MICROS }
+
 fn is_shared(cfg: &Cfg, path: &str) -> bool
 {
     path.starts_with(&cfg.cache_prefix) || cfg.shared.contains(path)
@@ -937,7 +943,7 @@ impl System for MemSystem
             i.touch(path, false);
             match i.fs.map.get(path)
             {
-                Some(Node::File(f)) => Ok(SystemTime::UNIX_EPOCH + Duration::from_micros(f.mtime)),
+                Some(Node::File(f)) => Ok(SystemTime::UNIX_EPOCH + Duration::from_micros(stamp_micros(f.mtime))),
                 Some(Node::Dir) => Ok(SystemTime::UNIX_EPOCH + Duration::from_micros(1)),
                 None => Err(SystemError::MetadataNotFound),
             }
